@@ -14,6 +14,10 @@
 (*   Simulate(t)    simulate() with the trivial optimiser that evaluates the *)
 (*                  energy at theta_t and returns it                         *)
 (*   Rdm(t)         get_rdm(theta_t)                                         *)
+(*   OpExpObj(f, t) operator_expectation(<operator object of form f>,        *)
+(*                  theta_t): FermionOperator, foreign QubitOperator, own    *)
+(*                  QubitOperator                                            *)
+(*   Resources      get_resources()                                          *)
 (* The CONTRACT is that the value returned by a call is a function of the   *)
 (* call's own arguments (and, for OpExpCur, of cur) only:                   *)
 (*   Energy(t) = E[t], OpExp(o,t) = X[o,t], Simulate(t) = E[t], and         *)
@@ -40,6 +44,11 @@ vars == <<phase, cur, target, opt, hist>>
 
 Thetas == 1..NTheta
 SymOps == {"N", "Sz", "S^2"}
+\* forms of the operator argument of operator_expectation other than the three strings:
+\*   "fermion"  a FermionOperator (the harness passes the molecule's fermionic Hamiltonian: value = plain energy)
+\*   "qforeign" a QubitOperator DIFFERENT from the solver's Hamiltonian (value = exact contraction of its coefficients)
+\*   "qown"     a QubitOperator equal to the solver's Hamiltonian
+OpForms == (IF WithSym THEN {"fermion"} ELSE {}) \cup {"qforeign", "qown"}
 
 Call(kind, op, t, expect) == [kind |-> kind, op |-> op, t |-> t, expect |-> expect]
 
@@ -65,8 +74,14 @@ OpExp(o, t) == WithSym /\ Do(Call("opexp", o, t, t), t, opt)
 OpExpCur(o) == WithSym /\ cur # 0 /\ Do(Call("opexpcur", o, 0, cur), cur, opt)
 Simulate(t) == Do(Call("simulate", "", t, t), t, t)
 Rdm(t)      == WithRdm /\ Do(Call("rdm", "", t, t), t, opt)
+\* operator_expectation with an operator OBJECT: whatever its type, the solver's own Hamiltonian is the target afterwards
+OpExpObj(f, t) == Do(Call("opexpobj", f, t, t), t, opt)
+\* get_resources(): reads the Hamiltonian and the circuit, changes nothing (cur, opt, target unchanged)
+Resources   == Do(Call("resources", "", 0, cur), cur, opt)
 
 Next == \/ \E t \in Thetas : Energy(t) \/ Simulate(t) \/ Rdm(t)
+        \/ \E t \in Thetas, f \in OpForms : OpExpObj(f, t)
+        \/ Resources
         \/ \E t \in Thetas, o \in SymOps : OpExp(o, t)
         \/ \E o \in SymOps : OpExpCur(o)
 
